@@ -452,7 +452,7 @@ def insitu(spec, rec, log, rng):
         del log[:]
         from vf.core import CaseTimeout, time_limit
 
-        if i % 5 == 4:
+        if i % 5 == 4 and i < spec["n"]:
             try:
                 with time_limit(60):
                     retry_after_fault(scheme, rng, rec, log, desc)
@@ -462,7 +462,7 @@ def insitu(spec, rec, log, rng):
             del log[:]
 
         FAILPOINT["calls"] = 0
-        FAILPOINT["arm"] = int(rng.integers(1, 60)) if i % 3 == 0 else None
+        FAILPOINT["arm"] = int(rng.integers(1, 60)) if (i % 3 == 0 and i < spec["n"]) else None
         injected = False
         result = None
         try:
@@ -556,6 +556,17 @@ def targeted_cases():
                               {"source": "a", "target": "c", "parameter": "rel.2", "interval": [3.0, 5.2]}],
                 "penalties": [], "weights": [],
                 "features": {"nnls": nnls, "link_clp": linked, "n_datasets": 2, "targeted": "two relations with different intervals", "relations": 2, "constraints": 1}}))
+    # linked datasets whose megacomplexes declare the SHARED clp labels in opposite orders (stacking is by label)
+    for nnls in (False, True):
+        ds = [{"label": f"ds{k + 1}", "group": "g1", "t": [0.0, 0.25, 0.5, 1.0, 1.5, 2.5, 4.0, 6.0, 8.0, 11.0][: 9 + k], "g": [1.0, 2.0, 3.0, 4.0] if k == 0 else [2.0, 3.0, 4.0, 5.0],
+               "layout": "mg", "megacomplex": ["m1"] if k == 0 else ["m2"], "dseed": 800 + k, "id0": 100 * k, "weight": None, "scale": None, "mc_scale": None} for k in range(2)]
+        out.append(S.jsonable_case({
+            "datasets": ds, "megacomplexes": {"m1": {"labels": ["a", "b", "c"], "rates": ["k.1", "k.2", "k.3"], "disp": None},
+                                              "m2": {"labels": ["c", "a", "b"], "rates": ["k.3", "k.1", "k.2"], "disp": None}},
+            "global_megacomplexes": {}, "groups": {"g1": {"link_clp": True, "residual_function": "non_negative_least_squares" if nnls else "variable_projection"}},
+            "parameters": {"k.1": {"value": 2.1}, "k.2": {"value": 0.7}, "k.3": {"value": 0.22}},
+            "link_tolerance": 0.0, "link_method": "nearest", "constraints": [], "relations": [], "penalties": [], "weights": [],
+            "features": {"nnls": nnls, "link_clp": True, "n_datasets": 2, "targeted": "linked datasets with shared labels in opposite orders"}}))
     return out
 
 
